@@ -133,11 +133,11 @@ def symbolic_for(eng, s, fr, it):
     entry_heap = eng.heap.snapshot()
     entry_vars = dict(fr.vars)
     loop_old = OldNS(entry_vars, entry_heap)
-    is_list = isinstance(it, ListV)
+    is_list = isinstance(it, (ListV, ZipV))
     if isinstance(it, DictV):
         it = ValuesView(it, 'keys')
     if is_list:
-        n = eng.list_len(it)
+        n = eng.seq_len_term(it)
         ghost0 = {'k': 0, 'loop_old': loop_old}
     else:
         ety = eng.elem_type(it) if not (isinstance(it, ValuesView) and it.what == 'items') else it.d.kty
@@ -172,7 +172,7 @@ def symbolic_for(eng, s, fr, it):
         more = z3.Exists([x], z3.And(coll_chi[x], z3.Not(seen[x])))
     if eng.run.decide(more):
         if is_list:
-            elem = eng.list_get(it, k)
+            elem = eng.seq_get(it, k)
             ghost_next = {'k': SV(k + 1, INT), 'loop_old': loop_old}
         else:
             e = eng.run.fresh('elem', so)
